@@ -16,6 +16,8 @@ PROPS = {
     "C05": {"families": [fam("scale.hist", 1, 1, seeds=2)]},
     "C01": {"families": [fam("scale.hist", 1, 1, seeds=2)]},
     "C17": {"families": [fam("c17.memo", 40, 400)]},
+    # hosts lines served from FILE-backed lists (last line without a newline, retrieved after longer lines)
+    "C18": {"families": [fam("c13.tail", 100, 1500)]},
     # a rule and its $badfilter twin must both be FOUND by the engine for the twin to work: run the lookup scenarios
     # (non-ASCII URLs whose lower-case form has another length included) here too
     "C08": {"families": [fam("c01.matchall", 800, 8000, seeds=2)]},
